@@ -13,11 +13,11 @@ set_option linter.unusedSectionVars false
 set_option linter.unusedSimpArgs false
 
 variable {K V : Type} [Field K] [LinearOrder K] [IsStrictOrderedRing K] [AddCommGroup V] [Module K V]
-variable (c : Cfg K) (f : V → K × V) (hessp : V → V → V) (ip : V → V → K) (gradnorm : V → K)
+variable (c : Cfg K) (f : V → K × V) (nan : V → Bool) (hessp : V → V → V) (ip : V → V → K) (gradnorm : V → K)
   (cgnorm : V → K) (cg : CgArgs K → V → V → V × Int)
 
 theorem lsStaticLoop_done (pos : V) (e : K) (g : V) (fuel : Nat) (v : LsSt K V) (h : ¬ v.status < -1) :
-    lsStaticLoop f hessp ip pos e g fuel v = v := by
+    lsStaticLoop f nan hessp ip pos e g fuel v = v := by
   cases fuel <;> simp [lsStaticLoop, h]
 
 /-- the compiled line search result corresponds to the eager one -/
@@ -28,40 +28,40 @@ def LsMatch (R : LsRes K V) (S : LsSt K V) : Prop :=
 
 theorem ls_sim (pos : V) (energy : K) (g : V) : ∀ (fuel ls : Nat) (gs : K) (dd : V) (reset : Bool)
     (np : V) (ne : K) (ng : V), 1 ≤ fuel → ls + fuel = 9 →
-    LsMatch (lsEager f hessp ip pos energy g fuel ls gs dd reset)
-      (lsStaticLoop f hessp ip pos energy g fuel ⟨-2, ls, np, ne, ng, dd, gs, reset⟩) := by
+    LsMatch (lsEager f nan hessp ip pos energy g fuel ls gs dd reset)
+      (lsStaticLoop f nan hessp ip pos energy g fuel ⟨-2, ls, np, ne, ng, dd, gs, reset⟩) := by
   intro fuel
   induction fuel with
   | zero => intro ls gs dd reset np ne ng h; omega
   | succ fuel ih =>
     intro ls gs dd reset np ne ng _ hsum
     simp only [lsStaticLoop, show ((-2 : Int) < -1) from by omega, if_true, lsEager]
-    by_cases hacc : (f (pos - gs • dd)).1 ≤ energy
+    by_cases hacc : nan (pos - gs • dd) = false ∧ (f (pos - gs • dd)).1 ≤ energy
     · simp only [hacc, if_true]
-      have hstep : lsStaticStep f hessp ip pos energy g ⟨-2, ls, np, ne, ng, dd, gs, reset⟩
+      have hstep : lsStaticStep f nan hessp ip pos energy g ⟨-2, ls, np, ne, ng, dd, gs, reset⟩
           = ⟨0, ls + 1, pos - gs • dd, (f (pos - gs • dd)).1, (f (pos - gs • dd)).2, dd, gs, reset⟩ := by
         simp [lsStaticStep, hacc]
-      rw [hstep, lsStaticLoop_done _ _ _ _ _ _ _ _ (by simp)]
+      rw [hstep, lsStaticLoop_done _ _ _ _ _ _ _ _ _ (by simp)]
       simp [LsMatch]
     · simp only [hacc, if_false]
       by_cases h8 : ls = 8
       · have hf0 : fuel = 0 := by omega
         subst hf0
         subst h8
-        have hstep : (lsStaticStep f hessp ip pos energy g ⟨-2, 8, np, ne, ng, dd, gs, reset⟩).status = -1 := by
+        have hstep : (lsStaticStep f nan hessp ip pos energy g ⟨-2, 8, np, ne, ng, dd, gs, reset⟩).status = -1 := by
           simp [lsStaticStep, hacc]
         simp [lsStaticLoop, lsEager, LsMatch, hstep]
       · have hfuel : 1 ≤ fuel := by omega
         by_cases h5 : ls = 5
         · subst h5
-          have hstep : lsStaticStep f hessp ip pos energy g ⟨-2, 5, np, ne, ng, dd, gs, reset⟩
+          have hstep : lsStaticStep f nan hessp ip pos energy g ⟨-2, 5, np, ne, ng, dd, gs, reset⟩
               = ⟨-2, 6, pos - gs • dd, (f (pos - gs • dd)).1, (f (pos - gs • dd)).2,
                   resetDir ip hessp pos g, 1, true⟩ := by
             simp [lsStaticStep, hacc]
           rw [hstep]
           simp only [if_true]
           exact ih 6 1 _ true _ _ _ hfuel (by omega)
-        · have hstep : lsStaticStep f hessp ip pos energy g ⟨-2, ls, np, ne, ng, dd, gs, reset⟩
+        · have hstep : lsStaticStep f nan hessp ip pos energy g ⟨-2, ls, np, ne, ng, dd, gs, reset⟩
               = ⟨-2, ls + 1, pos - gs • dd, (f (pos - gs • dd)).1, (f (pos - gs • dd)).2, dd, gs / two, reset⟩ := by
             simp [lsStaticStep, hacc, h5, h8]
           rw [hstep]
@@ -69,8 +69,8 @@ theorem ls_sim (pos : V) (energy : K) (g : V) : ∀ (fuel ls : Nat) (gs : K) (dd
           exact ih (ls + 1) _ _ _ _ _ _ hfuel (by omega)
 
 theorem lineSearch_sim (pos : V) (energy : K) (g natg : V) :
-    LsMatch (lineSearchEager f hessp ip pos energy g natg) (lineSearchStatic f hessp ip pos energy g natg) :=
-  ls_sim f hessp ip pos energy g 9 0 1 natg false pos energy g (by omega) (by omega)
+    LsMatch (lineSearchEager f nan hessp ip pos energy g natg) (lineSearchStatic f nan hessp ip pos energy g natg) :=
+  ls_sim f nan hessp ip pos energy g 9 0 1 natg false pos energy g (by omega) (by omega)
 
 /-- compiled state corresponding to the eager state at the start of iteration `i` -/
 def sOf (s : NSt K V) (i : Nat) : SSt K V := ⟨-2, i - 1, s.pos, s.energy, s.g, s.oldF⟩
@@ -79,14 +79,14 @@ def resOf (v : SSt K V) : NRes K V := ⟨v.pos, v.status, v.energy, v.g, v.it⟩
 
 theorem ncgStep_sim (i : Nat) (hi : 1 ≤ i) (s : NSt K V)
     (hargs : cg (eagerCgArgs c cgnorm s) s.pos s.g = cg (staticCgArgs c cgnorm (sOf s i)) s.pos s.g) :
-    match ncgEagerStep c f hessp ip gradnorm cgnorm cg i s with
-    | .stop (.ok r) => ∃ v, ncgStaticStep c f hessp ip gradnorm cgnorm cg (sOf s i) = some v ∧ resOf v = r ∧ -1 ≤ r.status
-    | .stop (.error _) => ncgStaticStep c f hessp ip gradnorm cgnorm cg (sOf s i) = none
-    | .next s' => ncgStaticStep c f hessp ip gradnorm cgnorm cg (sOf s i)
+    match ncgEagerStep c f nan hessp ip gradnorm cgnorm cg i s with
+    | .stop (.ok r) => ∃ v, ncgStaticStep c f nan hessp ip gradnorm cgnorm cg (sOf s i) = some v ∧ resOf v = r ∧ -1 ≤ r.status
+    | .stop (.error _) => ncgStaticStep c f nan hessp ip gradnorm cgnorm cg (sOf s i) = none
+    | .next s' => ncgStaticStep c f nan hessp ip gradnorm cgnorm cg (sOf s i)
         = some { sOf s' (i + 1) with status := if i = c.maxiter then (i : Int) else -2 } := by
   have hi1 : i - 1 + 1 = i := by omega
   have hiI : ¬ ((i : Int) < -1) := by omega
-  have hls := lineSearch_sim f hessp ip s.pos s.energy s.g (cg (eagerCgArgs c cgnorm s) s.pos s.g).1
+  have hls := lineSearch_sim f nan hessp ip s.pos s.energy s.g (cg (eagerCgArgs c cgnorm s) s.pos s.g).1
   simp only [sOf] at hargs
   unfold ncgEagerStep ncgStaticStep
   simp only [sOf, hi1]
@@ -94,16 +94,16 @@ theorem ncgStep_sim (i : Nat) (hi : 1 ≤ i) (s : NSt K V)
   by_cases hc : (cg (eagerCgArgs c cgnorm s) s.pos s.g).2 < 0
   · simp only [hc, if_true]
   · simp only [hc, if_false]
-    by_cases hf : (lineSearchEager f hessp ip s.pos s.energy s.g (cg (eagerCgArgs c cgnorm s) s.pos s.g).1).found = false
+    by_cases hf : (lineSearchEager f nan hessp ip s.pos s.energy s.g (cg (eagerCgArgs c cgnorm s) s.pos s.g).1).found = false
     · have hS := hls.2 hf
       simp only [hf, if_true, hS]
       refine ⟨_, rfl, ?_, by simp⟩
       simp [resOf]
-    · have hf' : (lineSearchEager f hessp ip s.pos s.energy s.g (cg (eagerCgArgs c cgnorm s) s.pos s.g).1).found = true := by
+    · have hf' : (lineSearchEager f nan hessp ip s.pos s.energy s.g (cg (eagerCgArgs c cgnorm s) s.pos s.g).1).found = true := by
         simpa using hf
       obtain ⟨h0, hp, he, hg, hdd, hgs, hit⟩ := hls.1 hf'
       simp only [hf', Bool.true_eq_false, if_false, h0, hp, he, hg, hdd, hgs, hit]
-      generalize (lineSearchEager f hessp ip s.pos s.energy s.g (cg (eagerCgArgs c cgnorm s) s.pos s.g).1) = R
+      generalize (lineSearchEager f nan hessp ip s.pos s.energy s.g (cg (eagerCgArgs c cgnorm s) s.pos s.g).1) = R
       cases hab : c.absdelta with
       | none =>
         by_cases hx : R.gs * gradnorm R.dd ≤ c.xtol ∧ c.miniter < i
@@ -152,17 +152,17 @@ theorem ncgStep_sim (i : Nat) (hi : 1 ≤ i) (s : NSt K V)
               · simp [h, eq_false hm, hiI, resOf]
 
 theorem ncgStaticLoop_done (fuel : Nat) (v : SSt K V) (h : ¬ v.status < -1) :
-    ncgStaticLoop c f hessp ip gradnorm cgnorm cg fuel v = some v := by
+    ncgStaticLoop c f nan hessp ip gradnorm cgnorm cg fuel v = some v := by
   cases fuel <;> simp [ncgStaticLoop, h]
 
 theorem ncgLoop_sim (P : NSt K V → Prop)
-    (hP : ∀ s i s', P s → ncgEagerStep c f hessp ip gradnorm cgnorm cg i s = .next s' → P s')
+    (hP : ∀ s i s', P s → ncgEagerStep c f nan hessp ip gradnorm cgnorm cg i s = .next s' → P s')
     (hA : ∀ s i, P s → cg (eagerCgArgs c cgnorm s) s.pos s.g = cg (staticCgArgs c cgnorm (sOf s i)) s.pos s.g) :
     ∀ (fuel i : Nat) (s : NSt K V) (fs : Nat), P s → 1 ≤ i → 1 ≤ fuel → fuel ≤ fs →
     i + fuel = c.maxiter + 1 →
-    match ncgEagerLoop c f hessp ip gradnorm cgnorm cg fuel i s with
-    | .ok r => ∃ v, ncgStaticLoop c f hessp ip gradnorm cgnorm cg fs (sOf s i) = some v ∧ resOf v = r
-    | .error _ => ncgStaticLoop c f hessp ip gradnorm cgnorm cg fs (sOf s i) = none := by
+    match ncgEagerLoop c f nan hessp ip gradnorm cgnorm cg fuel i s with
+    | .ok r => ∃ v, ncgStaticLoop c f nan hessp ip gradnorm cgnorm cg fs (sOf s i) = some v ∧ resOf v = r
+    | .error _ => ncgStaticLoop c f nan hessp ip gradnorm cgnorm cg fs (sOf s i) = none := by
   intro fuel
   induction fuel with
   | zero => intro i s fs _ _ h; omega
@@ -170,9 +170,9 @@ theorem ncgLoop_sim (P : NSt K V → Prop)
     intro i s fs hPs hi _ hfs hsum
     obtain ⟨fs', rfl⟩ : ∃ k, fs = k + 1 := ⟨fs - 1, by omega⟩
     have hstart : (sOf s i).status < -1 := by simp [sOf]
-    have hstep := ncgStep_sim c f hessp ip gradnorm cgnorm cg i hi s (hA s i hPs)
+    have hstep := ncgStep_sim c f nan hessp ip gradnorm cgnorm cg i hi s (hA s i hPs)
     simp only [ncgStaticLoop, hstart, if_true, ncgEagerLoop]
-    cases hE : ncgEagerStep c f hessp ip gradnorm cgnorm cg i s with
+    cases hE : ncgEagerStep c f nan hessp ip gradnorm cgnorm cg i s with
     | stop r =>
       rw [hE] at hstep
       cases r with
@@ -184,7 +184,7 @@ theorem ncgLoop_sim (P : NSt K V → Prop)
         have : ¬ v.status < -1 := by
           have : v.status = res.status := by rw [← hres]; rfl
           omega
-        rw [ncgStaticLoop_done _ _ _ _ _ _ _ _ _ this]
+        rw [ncgStaticLoop_done _ _ _ _ _ _ _ _ _ _ this]
         exact ⟨v, rfl, hres⟩
       | error e =>
         simp only at hstep ⊢
@@ -199,7 +199,7 @@ theorem ncgLoop_sim (P : NSt K V → Prop)
       · subst h0
         have hm : i = c.maxiter := by omega
         simp only [hm, if_true, ncgEagerLoop]
-        rw [ncgStaticLoop_done _ _ _ _ _ _ _ _ _ (by simp)]
+        rw [ncgStaticLoop_done _ _ _ _ _ _ _ _ _ _ (by simp)]
         refine ⟨_, rfl, ?_⟩
         simp [resOf, sOf]
       · have hm : ¬ i = c.maxiter := by omega
@@ -210,22 +210,25 @@ theorem ncgLoop_sim (P : NSt K V → Prop)
 /-- `_static_newton_cg` returns exactly what `_newton_cg` returns, and raises where it raises, whenever the CG oracle
     answers alike for the stopping parameters the two variants derive (`hA`) along an invariant `P` of the eager run -/
 theorem ncgStatic_sim (P : NSt K V → Prop)
-    (hP : ∀ s i s', P s → ncgEagerStep c f hessp ip gradnorm cgnorm cg i s = .next s' → P s')
+    (hP : ∀ s i s', P s → ncgEagerStep c f nan hessp ip gradnorm cgnorm cg i s = .next s' → P s')
     (hA : ∀ s i, P s → cg (eagerCgArgs c cgnorm s) s.pos s.g = cg (staticCgArgs c cgnorm (sOf s i)) s.pos s.g)
     (x0 : V) (h0 : P ⟨x0, (f x0).1, (f x0).2, c.oldFval⟩) :
-    match ncgEager c f hessp ip gradnorm cgnorm cg x0 with
-    | .ok r => ncgStatic c f hessp ip gradnorm cgnorm cg x0 = some r
-    | .error _ => ncgStatic c f hessp ip gradnorm cgnorm cg x0 = none := by
+    match ncgEager c f nan hessp ip gradnorm cgnorm cg x0 with
+    | .ok r => ncgStatic c f nan hessp ip gradnorm cgnorm cg x0 = some r
+    | .error _ => ncgStatic c f nan hessp ip gradnorm cgnorm cg x0 = none := by
   unfold ncgEager ncgStatic
   simp only []
+  by_cases hn : nan x0 = true
+  · simp [hn]
+  simp only [hn, Bool.false_eq_true, if_false]
   rcases Nat.eq_zero_or_pos c.maxiter with hz | hpos
   · simp [hz, ncgEagerLoop, ncgStaticLoop]
   · have hne : ¬ c.maxiter = 0 := by omega
     simp only [hne, if_false]
-    have := ncgLoop_sim c f hessp ip gradnorm cgnorm cg P hP hA c.maxiter 1 ⟨x0, (f x0).1, (f x0).2, c.oldFval⟩
+    have := ncgLoop_sim c f nan hessp ip gradnorm cgnorm cg P hP hA c.maxiter 1 ⟨x0, (f x0).1, (f x0).2, c.oldFval⟩
       c.maxiter h0 (le_refl _) hpos (le_refl _) (by omega)
     simp only [sOf] at this
-    cases hE : ncgEagerLoop c f hessp ip gradnorm cgnorm cg c.maxiter 1 ⟨x0, (f x0).1, (f x0).2, c.oldFval⟩ with
+    cases hE : ncgEagerLoop c f nan hessp ip gradnorm cgnorm cg c.maxiter 1 ⟨x0, (f x0).1, (f x0).2, c.oldFval⟩ with
     | ok r =>
       rw [hE] at this
       obtain ⟨v, hv, hr⟩ := this
@@ -255,17 +258,17 @@ theorem cgArgs_eq (e : K) (he : c.erf = some e) (he0 : e ≠ 0) (s : NSt K V) (i
 /-! ### the compiled minimiser never goes uphill (direct invariant, no equivalence guard needed) -/
 
 theorem lsEager_specE (pos : V) (energy : K) (g natg : V)
-    (h : (lineSearchEager f hessp ip pos energy g natg).found = true) :
-    (lineSearchEager f hessp ip pos energy g natg).newEnergy = (f (lineSearchEager f hessp ip pos energy g natg).newPos).1
-    ∧ (lineSearchEager f hessp ip pos energy g natg).newG = (f (lineSearchEager f hessp ip pos energy g natg).newPos).2
-    ∧ (lineSearchEager f hessp ip pos energy g natg).newEnergy ≤ energy := by
+    (h : (lineSearchEager f nan hessp ip pos energy g natg).found = true) :
+    (lineSearchEager f nan hessp ip pos energy g natg).newEnergy = (f (lineSearchEager f nan hessp ip pos energy g natg).newPos).1
+    ∧ (lineSearchEager f nan hessp ip pos energy g natg).newG = (f (lineSearchEager f nan hessp ip pos energy g natg).newPos).2
+    ∧ (lineSearchEager f nan hessp ip pos energy g natg).newEnergy ≤ energy := by
   have key : ∀ (fuel ls : Nat) (gs : K) (dd : V) (reset : Bool),
-      (lsEager f hessp ip pos energy g fuel ls gs dd reset).found = true →
-      (lsEager f hessp ip pos energy g fuel ls gs dd reset).newEnergy
-          = (f (lsEager f hessp ip pos energy g fuel ls gs dd reset).newPos).1
-      ∧ (lsEager f hessp ip pos energy g fuel ls gs dd reset).newG
-          = (f (lsEager f hessp ip pos energy g fuel ls gs dd reset).newPos).2
-      ∧ (lsEager f hessp ip pos energy g fuel ls gs dd reset).newEnergy ≤ energy := by
+      (lsEager f nan hessp ip pos energy g fuel ls gs dd reset).found = true →
+      (lsEager f nan hessp ip pos energy g fuel ls gs dd reset).newEnergy
+          = (f (lsEager f nan hessp ip pos energy g fuel ls gs dd reset).newPos).1
+      ∧ (lsEager f nan hessp ip pos energy g fuel ls gs dd reset).newG
+          = (f (lsEager f nan hessp ip pos energy g fuel ls gs dd reset).newPos).2
+      ∧ (lsEager f nan hessp ip pos energy g fuel ls gs dd reset).newEnergy ≤ energy := by
     intro fuel
     induction fuel with
     | zero => intro ls gs dd reset h; simp [lsEager] at h
@@ -273,7 +276,7 @@ theorem lsEager_specE (pos : V) (energy : K) (g natg : V)
       intro ls gs dd reset
       simp only [lsEager]
       split_ifs with h1 h2
-      · intro _; exact ⟨rfl, rfl, h1⟩
+      · intro _; exact ⟨rfl, rfl, h1.2⟩
       · exact ih _ _ _ _
       · exact ih _ _ _ _
   exact key 9 0 1 natg false h
@@ -281,21 +284,21 @@ theorem lsEager_specE (pos : V) (energy : K) (g natg : V)
 def SInv (E0 : K) (v : SSt K V) : Prop := v.energy = (f v.pos).1 ∧ v.g = (f v.pos).2 ∧ v.energy ≤ E0
 
 theorem ncgStaticStep_inv (E0 : K) (v v' : SSt K V) (hv : SInv f E0 v) (hs : v.status < -1)
-    (h : ncgStaticStep c f hessp ip gradnorm cgnorm cg v = some v') : SInv f E0 v' := by
+    (h : ncgStaticStep c f nan hessp ip gradnorm cgnorm cg v = some v') : SInv f E0 v' := by
   obtain ⟨h1, h2, h3⟩ := hv
-  have hls := lineSearch_sim f hessp ip v.pos v.energy v.g (cg (staticCgArgs c cgnorm v) v.pos v.g).1
+  have hls := lineSearch_sim f nan hessp ip v.pos v.energy v.g (cg (staticCgArgs c cgnorm v) v.pos v.g).1
   unfold ncgStaticStep at h
   simp only [] at h
   by_cases hc : (cg (staticCgArgs c cgnorm v) v.pos v.g).2 < 0
   · simp [hc] at h
   · simp only [hc, if_false, Option.some.injEq] at h
     subst h
-    by_cases hf : (lineSearchEager f hessp ip v.pos v.energy v.g (cg (staticCgArgs c cgnorm v) v.pos v.g).1).found = true
+    by_cases hf : (lineSearchEager f nan hessp ip v.pos v.energy v.g (cg (staticCgArgs c cgnorm v) v.pos v.g).1).found = true
     · obtain ⟨hs0, hp, he, hg, _⟩ := hls.1 hf
-      obtain ⟨a, b, c'⟩ := lsEager_specE f hessp ip v.pos v.energy v.g _ hf
+      obtain ⟨a, b, c'⟩ := lsEager_specE f nan hessp ip v.pos v.energy v.g _ hf
       simp only [SInv, hs0, ne_eq, not_true_eq_false, if_false, hs, if_true, hp, he, hg]
       exact ⟨a, b, le_trans c' h3⟩
-    · have hf' : (lineSearchEager f hessp ip v.pos v.energy v.g (cg (staticCgArgs c cgnorm v) v.pos v.g).1).found = false := by
+    · have hf' : (lineSearchEager f nan hessp ip v.pos v.energy v.g (cg (staticCgArgs c cgnorm v) v.pos v.g).1).found = false := by
         simpa using hf
       have hs1 := hls.2 hf'
       simp only [SInv, hs1, ne_eq, show ¬ ((-1 : Int) = 0) from by omega, not_false_eq_true, if_true,
@@ -303,7 +306,7 @@ theorem ncgStaticStep_inv (E0 : K) (v v' : SSt K V) (hv : SInv f E0 v) (hs : v.s
       exact ⟨h1, h2, h3⟩
 
 theorem ncgStaticLoop_inv (E0 : K) : ∀ (fuel : Nat) (v v' : SSt K V), SInv f E0 v →
-    ncgStaticLoop c f hessp ip gradnorm cgnorm cg fuel v = some v' → SInv f E0 v' := by
+    ncgStaticLoop c f nan hessp ip gradnorm cgnorm cg fuel v = some v' → SInv f E0 v' := by
   intro fuel
   induction fuel with
   | zero => intro v v' hv h; simp only [ncgStaticLoop, Option.some.injEq] at h; subst h; exact hv
@@ -311,11 +314,11 @@ theorem ncgStaticLoop_inv (E0 : K) : ∀ (fuel : Nat) (v v' : SSt K V), SInv f E
     intro v v' hv h
     simp only [ncgStaticLoop] at h
     split_ifs at h with hs
-    · cases hstep : ncgStaticStep c f hessp ip gradnorm cgnorm cg v with
+    · cases hstep : ncgStaticStep c f nan hessp ip gradnorm cgnorm cg v with
       | none => rw [hstep] at h; simp at h
       | some w =>
         rw [hstep] at h
-        exact ih w v' (ncgStaticStep_inv c f hessp ip gradnorm cgnorm cg E0 v w hv hs hstep) h
+        exact ih w v' (ncgStaticStep_inv c f nan hessp ip gradnorm cgnorm cg E0 v w hv hs hstep) h
     · simp only [Option.some.injEq] at h; subst h; exact hv
 
 end NiftyVerif.NewtonRe
